@@ -1,5 +1,5 @@
 /*VERIF
-{ "tu": "src/queue.c", "enforce": "_dispatch_lane_legacy_set_target_queue", "props": ["C03", "C05", "C17"], "seq": true, "timeout": 200,
+{ "tu": "src/queue.c", "enforce": "_dispatch_lane_legacy_set_target_queue", "props": ["C03", "C05", "C17", "C02"], "seq": true, "timeout": 200,
   "assumes": ["runs as a barrier on the queue being retargeted (submitted by _dispatch_lane_set_target_queue: h_set_target_queue), so the queue is the current queue"],
   "stub_note": "_dispatch_queue_priority_inherit_from_target: returns the (possibly substituted) target; _dispatch_lane_inherit_wlh_from_target (own contract: h_inherit_wlh_from_target): logged; side lock, release: logged" }
 VERIF*/
